@@ -94,6 +94,21 @@ func NewSess(noReg bool, maxDepth int) *Sess {
 	return x
 }
 
+// NewBlankSess is NewSess on eval.NewBlankState(): the session kind of an embedder that wants no extensions and
+// no pre-seeded identifiers (vprobe / vpanic are not available in it).
+func NewBlankSess(noReg bool, maxDepth int) *Sess {
+	sessOnce.Do(sessInit)
+	x := &Sess{S: eval.NewBlankState(), Buf: &bytes.Buffer{}}
+	x.S.Out = x.Buf
+	x.S.LogOut = x.Buf
+	x.S.NoReg = noReg
+	if maxDepth > 0 {
+		x.S.MaxDepth = maxDepth
+	}
+	x.Opts = repl.Options{ShowEval: true, NoColor: true, All: true, MaxDuration: 20 * time.Second}
+	return x
+}
+
 // Run submits one input; maxDur <= 0 keeps the session default.
 func (x *Sess) Run(input string, maxDur time.Duration) SessObs {
 	curSess = x
